@@ -1,4 +1,6 @@
 """C37 — reader macros in stream order and per module: laziness of the form stream and isolation of reader state."""
+CANON = True
+
 import ast
 
 from .. import compq, pyq, readerq
